@@ -1458,3 +1458,88 @@ def ob_job_tag(ctx, distinguishable):
             res.status, res.detail = 'inconclusive', 'vacuous'
     res.time = time.time() - t0
     return res
+
+
+def ob_match_place(ctx):
+    """C03 (place tag, read-back side): `match_place` of the initial-solution reader (real MIR) for a task with two tagged
+    alternative places and an activity of that job that carries the tag of place u (symbolic), place u's location, and a
+    visit interval inside place u's window: the reconstructed place is place u (index, duration) - i.e. the tag the
+    writer reports leads back to the place it was taken from, also when the other place matches by location and time."""
+    name = 'match_place'
+    res = Result(name)
+    res.bounds = 'one task, two tagged places (symbolic location, duration, absolute window); tagged activity with a symbolic visit interval inside the used window; times in [0,2^16]'
+    t0 = time.time()
+    fn = ctx.prog.find_free('match_place')
+    env = drivers.Env(ctx.prog, ctx.layout, 16)
+    eng, _ = ctx.engines(env)
+    holder = {}
+
+    def body(st):
+        env.assumptions.clear()
+        places, info = [], []
+        for i in range(2):
+            loc = env.sym_i(f'place{i}_loc', 0, 1000)
+            s, e, d = env.sym_f(f'place{i}_start'), env.sym_f(f'place{i}_end'), env.sym_f(f'place{i}_duration')
+            env.assumptions.append(s.v <= e.v)
+            places.append(env.struct('jobs::Place', location=mk_option(True, loc, ty='Option<usize>'), duration=d,
+                                     times=VecV([EnumV('domain::TimeSpan', 0, {0: [env.time_window(s, e)]})])))
+            info.append((loc, s, e, d))
+        tags = VecV([Agg('tuple', [IV(0), Opaque('"a"')], ''), Agg('tuple', [IV(1), Opaque('"b"')], '')])
+        single = ArcV(Cell(env.struct('jobs::Single', places=VecV(places), dimens=StateV({'place_tags': tags, 'job_id': Opaque('"job1"')}))))
+        vs, ve = env.sym_f('visit_start'), env.sym_f('visit_end')
+        env.assumptions.append(vs.v <= ve.v)
+        holder.update(info=info, vs=vs, ve=ve)
+        outs = []
+        for u in range(2):
+            actx = env.struct('activity_matcher::ActivityContext', route_start_time=FV.const(0), location=info[u][0], time=env.time_window(vs, ve),
+                              act_type=RefV(Cell(Opaque('"service"')), 0), job_id=RefV(Cell(Opaque('"job1"')), 0),
+                              tag=mk_option(True, RefV(Cell(Opaque('"%s"' % 'ab'[u])), 0), ty='Option<&String>'))
+            outs.append(eng.exec_fn(st, fn, [RefV(Cell(single), 0), BV(True), RefV(Cell(actx), 0)]))
+        return outs
+
+    paths = eng.explore(body, max_paths=4000)
+    res.paths = len(paths)
+    res.functions |= eng.functions_used
+    saw = False
+    for st, outs in paths:
+        if outs is None:
+            if not no_panic(ctx, res, env, st, what=name):
+                break
+            continue
+        info, vs, ve = holder['info'], holder['vs'], holder['ve']
+        claims = []
+        for u, out in enumerate(outs):
+            loc, s, e, d = info[u]
+            inside = z3.And(s.v <= vs.v, ve.v <= e.v)
+            if out.variant() is None:
+                res.status, res.detail = 'inconclusive', 'symbolic option'
+                break
+            if out.variant() == 0:
+                claims.append(z3.Not(inside))
+            else:
+                place = out.payload[1][0]
+                idx = env.field(place, 'route::Place', 'idx')
+                dur = env.field(place, 'route::Place', 'duration')
+                claims.append(z3.Implies(inside, z3.And(idx.t == u, dur.v == d.v)))
+        if res.status != 'holds':
+            break
+        if not decide_claim(ctx, res, env, st, z3.And(*claims), what=f'{name}: a tagged activity inside the window of its place is matched to that place'):
+            if res.status == 'violated' and res.model is not None:
+                m = res.model
+                ev = lambda t: m.eval(t, model_completion=True).as_long()
+                places = [{'loc': ev(l.t), 'start': ev(s.v), 'end': ev(e.v), 'duration': ev(d.v)} for l, s, e, d in info]
+                # which of the two activities is the failing one
+                for u in range(2):
+                    if not z3.is_true(m.eval(claims[u], model_completion=True)):
+                        res.case = {'kind': 'match_place', 'places': places, 'used': u, 'visit': [ev(vs.v), ev(ve.v)]}
+                        break
+            break
+        if not no_panic(ctx, res, env, st, what=name):
+            break
+        saw = saw or witness(ctx, res, env, st, z3.And(info[0][0].t == info[1][0].t, info[1][1].v <= vs.v, ve.v <= info[1][2].v, info[0][1].v <= vs.v, ve.v <= info[0][2].v))
+    if res.status == 'holds':
+        res.witnesses = int(saw)
+        if not saw:
+            res.status, res.detail = 'inconclusive', 'vacuous: the ambiguous situation was not reached'
+    res.time = time.time() - t0
+    return res
